@@ -563,6 +563,11 @@ def _dcog_samples():
             dict(shape=(272, 300), layout="syx", nsamples=2, dtype="uint16", nodata=65535, blocksize=[16], chunks=(272, 300), compression="NONE"),
             dict(shape=(400, 400), layout="yx", dtype="uint8", blocksize=[256, 128], chunks=((100, 256, 44), (256, 144))),  # IRREGULAR source chunks whose largest chunk equals the tile
             dict(shape=(400, 400), layout="syx", nsamples=2, dtype="int16", blocksize=[256, 128], chunks=((144, 256), (144, 256))),
+            # more than four (level, plane) tile streams in every small combination: the write order must stay overview-first
+            dict(shape=(100, 120), layout="syx", nsamples=3, dtype="uint8", blocksize=[64], chunks=(64, 64)),  # 3 planes x (1 overview + full) = 6 streams
+            dict(shape=(100, 120), layout="syx", nsamples=2, dtype="int16", blocksize=[32], chunks=(64, 64)),  # 2 planes x 3 levels = 6
+            dict(shape=(100, 120), layout="syx", nsamples=4, dtype="uint8", blocksize=[64], chunks=(100, 120)),  # 4 planes x 2 levels = 8
+            dict(shape=(130, 70), layout="syx", nsamples=3, dtype="uint16", blocksize=[32], chunks=(32, 32), scheduler="threads"),  # 3 planes x 3 levels = 9
             dict(shape=(50, 3), layout="syx", nsamples=2, dtype="uint8", blocksize=[16], chunks=(50, 3)),  # band-first and only 3 pixels wide: not RGB
             dict(shape=(40, 4), layout="syx", nsamples=3, dtype="int16", blocksize=[16], chunks=(16, 4)),
             dict(shape=(70, 90), layout="yx", dtype="int32", blocksize=[32], chunks=(32, 32), huge=True),  # band statistics with many digits
@@ -577,7 +582,7 @@ def _dcog_samples():
             yield dict(case=no_predictor_without_compression(one(i)))
             i += 1
 
-    return "21 fixed (incl. band-first images 3 / 4 pixels wide, irregularly chunked sources, images whose padding adds whole tile rows / columns, full-range int32 / uint32 and 1e300-sized float64 values) + 24 (quick) / 120 (thorough) pseudo-random combinations of 7 shapes (incl. single row / column, narrower than a tile) x YX / YXS / SYX x dtypes x nodata x block-size lists x compression (incl. none) / predictor x source chunking x spill size x writes per chunk x synchronous / threaded scheduler x CRS x rotated", gen()
+    return "25 fixed (incl. 6 / 8 / 9 tile streams, band-first images 3 / 4 pixels wide, irregularly chunked sources, images whose padding adds whole tile rows / columns, full-range int32 / uint32 and 1e300-sized float64 values) + 24 (quick) / 120 (thorough) pseudo-random combinations of 7 shapes (incl. single row / column, narrower than a tile) x YX / YXS / SYX x dtypes x nodata x block-size lists x compression (incl. none) / predictor x source chunking x spill size x writes per chunk x synchronous / threaded scheduler x CRS x rotated", gen()
 
 
 def _dcog_oracle(args, run=None):
